@@ -97,4 +97,8 @@ def extra_checks(runner, ev):
         print(f"VIOLATION property=C19 replay={path}")
         ev["violations"] += 1
         rc = 1
-    return rc
+    from pyvc.run import bounded_check
+
+    rc2 = bounded_check(ev, "C19", "C19_pagination.py", "composite-agg after_key cursor and scroll-search hit/page counters vs json.loads (real code)", "esrally/driver/runner.py::parse / CompositeAggExtractor / Query._scroll_query")
+    return max(rc, rc2) if 3 not in (rc, rc2) else 3
+
